@@ -200,12 +200,14 @@ def tolerance(mode):
 
 
 @st.composite
-def cascade_cases(draw, tier, formats=None, want_range=False):
+def cascade_cases(draw, tier, formats=None, want_range=False, modes=None, depth0=False):
     fmt = draw(st.sampled_from(formats or ["fits", "fits", "npy", "npy", "png", "jpg"]))
-    mode = draw(st.sampled_from(FORMAT_MODES[fmt]))
+    mode = draw(st.sampled_from(modes or FORMAT_MODES[fmt]))
     depth = draw(st.integers(1, 3 if tier == "quick" else 4)) if fmt != "jpg" else draw(st.integers(1, 2))
+    if depth0 and draw(st.integers(0, 7)) == 0:
+        depth = 0  # the whole data set fits into the single level-0 tile
     m = 2**depth
-    pattern = draw(st.sampled_from(["sparse", "sparse", "one", "full-quartet", "cluster"]))
+    pattern = draw(st.sampled_from(["sparse", "sparse", "one", "full-quartet", "cluster"])) if depth else "one"
     pos = set()
     if pattern == "one":
         pos.add((depth, draw(st.integers(0, m - 1)), draw(st.integers(0, m - 1))))
@@ -241,7 +243,7 @@ def cascade_cases(draw, tier, formats=None, want_range=False):
         leaves.append(spec)
     case = {"format": fmt, "mode": mode, "depth": depth, "leaves": leaves}
     # stale parent files at positions that have at least one child
-    parents = sorted(set(rp.parent(p) for p in pos))
+    parents = sorted(set(rp.parent(p) for p in pos)) if depth else []
     if draw(st.integers(0, 2)) == 0 and not want_range:
         case["stale"] = [list(parents[draw(st.integers(0, len(parents) - 1))])]
         if mode in ("F32", "F64") and fmt in ("fits", "npy") and draw(st.booleans()):
@@ -251,7 +253,7 @@ def cascade_cases(draw, tier, formats=None, want_range=False):
                     spec["kind"] = "allnan"
                     spec.pop("via", None)
                     spec.pop("inf", None)
-    if draw(st.integers(0, 2)) == 0:
+    if depth and draw(st.integers(0, 2)) == 0:
         # a tile filter that accepts every populated tile and its ancestors (plus some extras)
         acc = set()
         for p in pos:
